@@ -355,7 +355,7 @@ func propertyRoots() map[string][]string {
 		"C08": cat(cmds(commandAPI...), cmds("write", "send")),
 		"C09": cat(cmds("Raw", "send", "write", "Pong", "Ping", "h_PING", "initialise", "closeFor", "postConnect"), cmds(commandAPI...)),
 		"C10": cmds("write", "rateLimit", "send", "Raw", "initialise"),
-		"C11": cat([]string{"client.splitMessage", "client.indexFragment"}, cmds("Privmsg", "Privmsgln", "Privmsgf", "Notice", "Ctcp", "CtcpReply", "Action", "Version", "Raw")),
+		"C11": cat([]string{"client.splitMessage", "client.indexFragment"}, cmds("Privmsg", "Privmsgln", "Privmsgf", "Notice", "Ctcp", "CtcpReply", "Action", "Version", "Raw", "send", "write")),
 		"C12": trackerAPI,
 		"C13": cat(deliveryRoots, trackerAPI),
 		"C14": trackerAPI,
